@@ -125,7 +125,7 @@ def step (cleanAll : Bool) (s : St) (line : String) : St × String :=
     let fl := (rest.drop 1).headD "0"
     match parseKind k with
     | some .tcp =>
-      let (n, l, x) := (Node.mk s.a s.ex).data p.toNat! i.toNat! noKey (hex ++ "/f" ++ fl)
+      let (n, l, x) := (Node.mk s.a s.ex).data p.toNat! i.toNat! noKey (hex ++ "/f" ++ fl) (fl == "1")
       nodeOut s n.a n.ex .tcp l x
     | some k => optOut s k (s.a.relayData k p.toNat! i.toNat! (hex ++ "/f0"))   -- UDP/ICMP relays set no flags
     | none => (s, "bad-op")
@@ -161,6 +161,7 @@ structure XTun where
   peer : Nat
   id : Nat
   serial : Nat
+  fin : Bool := false   -- the client sent FIN_WRITE: later data cannot be written any more
   deriving DecidableEq
 
 structure SpecSt where
@@ -314,7 +315,7 @@ def specStep (s : SpecSt) (l : String) : SpecSt × String :=
       if sent == [(p, "tcp.ack", i, "")] then
         -- two exit records under one bare id = the handler-level collision of the known finding
         let dup := s.xlive.any (fun t => t.id == i)
-        ({ s with xlive := ⟨p, i, s.xnext⟩ :: s.xlive.filter (fun t => t.id != i || t.peer != p), xnext := s.xnext + 1,
+        ({ s with xlive := ⟨p, i, s.xnext, false⟩ :: s.xlive.filter (fun t => t.id != i || t.peer != p), xnext := s.xnext + 1,
                   collided := s.collided || dup }, "ok")
       else (s, "fail " ++ tag s "exit-open-failed")
     | ["xdata", p, i, k] =>
@@ -329,7 +330,8 @@ def specStep (s : SpecSt) (l : String) : SpecSt × String :=
       | none =>
         match s.xlive.find? (fun t => t.peer == p && t.id == i) with
         | some t =>
-          if t.serial == k then
+          if t.fin then ({ s with xlive := s.xlive.filter (· != t) }, "ok")   -- data after FIN: the stream is closed
+          else if t.serial == k then
             (s, if x == [s!"dst:{k}"] && sent.isEmpty then "ok" else "fail " ++ tag s "exit-misdelivered")
           else
             -- sealed under another tunnel's key: the owner's own stream is torn down (legitimate)
@@ -357,8 +359,12 @@ def specStep (s : SpecSt) (l : String) : SpecSt × String :=
         else
         match s.xlive.find? (fun t => t.peer == p && t.id == i) with
         | some t =>
-          -- undecryptable payload on the owner's own exit stream: the stream is closed (legitimate)
-          ({ s with xlive := s.xlive.filter (· != t) }, "ok")
+          -- an empty payload is ignored; an undecryptable one closes the owner's own stream (legitimate)
+          if (rest.headD "010203") == "-" then
+            let s' := if (rest.drop 1).headD "0" == "1"
+              then { s with xlive := s.xlive.map (fun u => if u == t then { u with fin := true } else u) } else s
+            (s', if sent.isEmpty && x.isEmpty then "ok" else "fail " ++ tag s "phantom")
+          else ({ s with xlive := s.xlive.filter (· != t) }, "ok")
         | none =>
           if s.xlive.any (fun t => t.id == i) then
             (if sent.isEmpty && x.isEmpty then (s, "ok")
